@@ -61,6 +61,26 @@ Theorem C08_visited_declarative : forall v f n,
 Proof. exact visited_decl. Qed.
 Print Assumptions C08_visited_declarative.
 
+(* the clauses of the statement one by one, as consequences of the characterisation:
+   accepted nodes are kept, a select answer keeps the whole branch *)
+Theorem C08_accepted_kept : forall v f t, NoDup (ids f) -> In t (pre_f f) -> In (rid t) (visited v f) ->
+  (accepts (v (rid t)) = true -> In (rid t) (ids (F v f))) /\
+  (v (rid t) = VSelect -> forall n, In n (ids_t t) -> In n (ids (F v f))).
+Proof. exact accepted_kept. Qed.
+Print Assumptions C08_accepted_kept.
+
+(* a node answered with the skip signal (and_self None/True) or stop is dropped *)
+Theorem C08_rejected_dropped : forall v f t, NoDup (ids f) -> In t (pre_f f) -> In (rid t) (reach v f) ->
+  v (rid t) = VSkip \/ v (rid t) = VStop -> ~ In (rid t) (ids (F v f)).
+Proof. exact rejected_dropped. Qed.
+Print Assumptions C08_rejected_dropped.
+
+(* nothing below a node answered skip (either and_self) or stop is kept *)
+Theorem C08_nothing_below_skip : forall v f t n, NoDup (ids f) -> In t (pre_f f) -> In (rid t) (reach v f) ->
+  opens (v (rid t)) = false -> v (rid t) <> VSelect -> In n (ids (rch t)) -> ~ In n (ids (F v f)).
+Proof. exact closed_drops_below. Qed.
+Print Assumptions C08_nothing_below_skip.
+
 (* ---- the in-place form -------------------------------------------- *)
 Theorem C08_inplace_is_F : forall v f, NoDup (ids f) -> filter_inplace v f = F v f.
 Proof. exact filter_inplace_is_F. Qed.
